@@ -264,6 +264,20 @@ func funcOfFrame(line string) string {
 	return line
 }
 
+// isStdlibFrame: standard library import paths have no dot in their first element.
+func isStdlibFrame(f string) bool {
+	first := f
+	if i := strings.Index(f, "/"); i >= 0 {
+		first = f[:i]
+		return !strings.Contains(first, ".")
+	}
+	pkg := f
+	if i := strings.Index(f, "."); i >= 0 {
+		pkg = f[:i]
+	}
+	return pkg != "main"
+}
+
 func parseCrash(w *Worker) crashInfo {
 	text := readFileTail(w.stderr, 1<<20)
 	ci := crashInfo{Kind: "exit", Exit: "?"}
@@ -318,11 +332,15 @@ func parseCrash(w *Worker) crashInfo {
 				last = i
 			}
 		}
+		// the site is the first frame after the panic machinery that is not in the standard library
 		for i := last + 1; i < len(frames); i++ {
-			if !strings.HasPrefix(frames[i], "runtime.") && !strings.HasPrefix(frames[i], "runtime/debug.") {
+			if !isStdlibFrame(frames[i]) {
 				ci.Site = frames[i]
 				break
 			}
+		}
+		if ci.Site == "" && last+1 < len(frames) {
+			ci.Site = frames[last+1]
 		}
 		if ci.Site == "" && len(frames) > 0 {
 			ci.Site = frames[0]
